@@ -241,6 +241,9 @@ func RunDamage(id string, tmpl *Msg, wire []byte, full bool) *DamageObs {
 	} else {
 		vals = []int{0, 1, 9, 10, 13, 32, 48, 49, 57, 61, 65, 124, 127, 128, 255}
 	}
+	// "reused": the damaged message is parsed into a message object that has just parsed the valid one (a receive loop that keeps
+	// one object per message type): whatever the first parse left behind must not make up for what the damage removed
+	reused, rerr := Build(tmpl, true)
 	try := func(kind string, pos, b int, d []byte) {
 		for _, mode := range []string{"strict", "nonstrict"} {
 			o.Tried++
@@ -248,6 +251,18 @@ func RunDamage(id string, tmpl *Msg, wire []byte, full bool) *DamageObs {
 				if len(o.Accepted) < 40 {
 					o.Accepted = append(o.Accepted, Accepted{kind, pos, b, mode, ToB(d)})
 				}
+			}
+		}
+		if rerr == nil {
+			o.Tried++
+			err, pn := safely(func() error {
+				if e := encoding.Unmarshal(reused, wire); e != nil {
+					return e
+				}
+				return encoding.Unmarshal(reused, d)
+			})
+			if err == nil && pn == "" && len(o.Accepted) < 40 {
+				o.Accepted = append(o.Accepted, Accepted{kind, pos, b, "strict, into an object that parsed the valid message before", ToB(d)})
 			}
 		}
 	}
@@ -512,7 +527,24 @@ func RunReuse(c *Case, pick int, newTxt func(ty string) []byte) ([]*CaseObs, err
 		second.Parse = parseInto(&c.M, w2, true)
 		second.Nonstrict = parseInto(&c.M, w2, false)
 	}
-	return []*CaseObs{mk(c.ID+"/first-bytes-after-second-call", tree1, w1), second}, nil
+	out := []*CaseObs{mk(c.ID+"/first-bytes-after-second-call", tree1, w1), second}
+	// a message object that has been serialized is then used as the target of a parse (in-place writes into its fields, the
+	// framing fields included); a FRESH message built afterwards must not be affected by what was written there
+	if wellFormedForParse(tree1) {
+		_, _ = safely(func() error { return encoding.Unmarshal(msg, w1) })
+		if fresh, err := Build(&c.M, false); err == nil {
+			var w3 []byte
+			err, pn := safely(func() error {
+				var e error
+				w3, e = fresh.ToBytes()
+				return e
+			})
+			if err == nil && pn == "" {
+				out = append(out, mk(c.ID+"/fresh-message-after-parse-into-a-used-one", &c.M, w3))
+			}
+		}
+	}
+	return out, nil
 }
 
 func deepCopyMsg(m *Msg) *Msg {
